@@ -329,6 +329,15 @@ def run(tier: str, opts: dict) -> int:
         for tpl in ("SELECT {o}1{c} FROM t1", "SELECT a FROM {o}t1{c}", "INSERT INTO t2 SELECT a FROM t1 WHERE a IN {o}SELECT a FROM t3{c}", "SELECT a FROM {o}SELECT a FROM t1{c} x"):
             for d in ("ansi", "tsql", LEGACY):
                 tasks.append(("nesting", d, tpl.format(o="(" * n, c=")" * n), {"depth": n, "check_parse": n <= 6}))
+    # (e) template expressions: the templater EVALUATES what stands between {{ }} / {% %}; every expression atom x operator x atom
+    atoms = ["1", "0", "x", "'a'", "[1]", "none", "10 ** 400", "range(10 ** 9)"]
+    binops = ["{a} / {b}", "{a} % {b}", "{a} // {b}", "{a} + {b}", "{a} * {b}", "{a} ** {b}", "{a}[{b}]", "{a}.{b}", "{a} | int", "{a} | list", "{a} | first", "{a}({b})", "{a} ~ {b}", "{a} < {b}"]
+    exprs = list(dict.fromkeys(op.format(a=a, b=b) for op in binops for a in atoms for b in atoms
+                              if not ("range" in a and "range" in b) and not ("**" in op and ("**" in a or "**" in b))))
+    for e in exprs:
+        for tpl in ("SELECT a, {{{{ {e} }}}} AS b FROM t1", "INSERT INTO t2 SELECT a FROM t1 WHERE '{{{{ {e} }}}}' = b", "SELECT a FROM t1 {{% if {e} %}} WHERE a = 1 {{% endif %}}"):
+            for d in ("ansi", LEGACY) if tpl.startswith("SELECT a,") else ("ansi",):  # the sqlparse-based analyzer does not template: one position is enough there
+                tasks.append(("template", d, tpl.format(e=e), {"expr": e, "check_parse": False}))
     # no statement at all / seeds themselves
     for d, sql in NO_STATEMENT + SEEDS + QUICK_SEEDS:
         tasks.append(("seed", d, sql, {}))
@@ -427,7 +436,7 @@ def run(tier: str, opts: dict) -> int:
         distinct_nontrivial=nontrivial,
         rule=f"(a) {len(SEEDS) + len(QUICK_SEEDS) if tier != 'quick' else len(QUICK_SEEDS)} seeds x every single edit (delete, duplicate, swap-adjacent, insert a, replace by a; alphabet {ALPHABET if tier != 'quick' else quick_alphabet}) at every token, under the seed's dialect and "
         "the sqlparse analyzer (+ansi, + pairs of metacharacter edits for the 12 shortest seeds in thorough); (b) every corpus statement under all 29 analyzers; (c) bracket nesting "
-        "1..30 at 4 positions x 3 analyzers; (d) every candidate text (look-alikes of each supported statement kind, colliding table names) x dialect that the library declares unsupported, at every position of 1-3 supported statements, silent on/off; non-trivial = inputs that "
+        "1..30 at 4 positions x 3 analyzers; (e) every jinja expression atom x operator x atom (8 atoms, 14 operator forms) in a {{ }} select item, inside a string literal and as an {% if %} condition; (d) every candidate text (look-alikes of each supported statement kind, colliding table names) x dialect that the library declares unsupported, at every position of 1-3 supported statements, silent on/off; non-trivial = inputs that "
         "got past the parser (result or non-syntax outcome) or come from parts b-d",
         exhaustive=True,
         outcomes=kinds,
